@@ -173,7 +173,13 @@ class Run:
         self.n_probe = 0
         self.spawn_errors: list = []
         self.cancel_phases: list[tuple] = []
-        self.w.on_cancel = lambda name: self.cancel_phases.append(tuple(self.phase))
+        self.cancel_in_cleanup: list[bool] = []
+
+        def on_cancel(name: str) -> None:
+            self.cancel_phases.append(tuple(self.phase))
+            self.cancel_in_cleanup.append(any(d.in_exit for ds in self.disp.values() for d in ds))
+
+        self.w.on_cancel = on_cancel
         _capture.records.clear()
         _capture.errors.clear()
 
